@@ -1,0 +1,289 @@
+//go:build verif
+
+package term
+
+// Contracts for contract-based deductive verification (read by /verif/govc). Comment-only.
+
+/*@
+-- ------------------------------------------------------------------ representation invariant (C05)
+-- "its cursor lies within the screen, its scroll margins are ordered and within the screen, and every
+--  row has exactly the terminal's width" -- for the active, primary and alternate grids alike, because
+--  mode 1049 switches between them.
+
+pred H(vt *Model) = len(vt.activeScreen)
+pred Wd(vt *Model) = len(vt.activeScreen[0])
+
+pred GridOK(g [][]cell, h int, w int) = len(g) == h && (forall r in 0..h: len(g[r]) == w)
+
+pred Inv(vt *Model) =
+     H(vt) >= 1 && Wd(vt) >= 1
+  && GridOK(vt.activeScreen, H(vt), Wd(vt))
+  && GridOK(vt.primaryScreen, H(vt), Wd(vt))
+  && GridOK(vt.altScreen, H(vt), Wd(vt))
+  && 0 <= vt.cursor.row && vt.cursor.row < H(vt)
+  && 0 <= vt.cursor.col && vt.cursor.col < Wd(vt)
+  && 0 <= vt.margin.top && vt.margin.top <= vt.margin.bottom && vt.margin.bottom < H(vt)
+  && vt.margin.left == 0 && vt.margin.right == Wd(vt) - 1
+
+-- parameters as the parser delivers them (C02): inner lists non-empty, values non-negative
+pred ParamsWF(pm [][]int) =
+     forall i in 0..len(pm): (len(pm[i]) >= 1 && (forall j in 0..len(pm[i]): pm[i][j] >= 0))
+
+-- ------------------------------------------------------------------ C0 / ESC
+
+func (vt *Model) c0(r rune)
+  requires inv: Inv(vt)
+  ensures C05_inv: Inv(vt)
+
+func (vt *Model) bs()
+  requires inv: Inv(vt)
+  ensures C05_inv: Inv(vt)
+
+func (vt *Model) ht()
+  requires inv: Inv(vt)
+  ensures C05_inv: Inv(vt)
+
+func (vt *Model) lf()
+  requires inv: Inv(vt)
+  ensures C05_inv: Inv(vt)
+
+func (vt *Model) cr()
+  requires inv: Inv(vt)
+  ensures C05_inv: Inv(vt)
+
+func (vt *Model) esc(esc string)
+  requires inv: Inv(vt)
+  ensures C05_inv: Inv(vt)
+
+func (vt *Model) ind()
+  requires inv: Inv(vt)
+  ensures C05_inv: Inv(vt)
+
+func (vt *Model) nel()
+  requires inv: Inv(vt)
+  ensures C05_inv: Inv(vt)
+
+func (vt *Model) hts()
+  requires inv: Inv(vt)
+  ensures C05_inv: Inv(vt)
+
+func (vt *Model) ri()
+  requires inv: Inv(vt)
+  ensures C05_inv: Inv(vt)
+
+func (vt *Model) decsc()
+  requires inv: Inv(vt)
+  ensures C05_inv: Inv(vt)
+
+func (vt *Model) decrc()
+  requires inv: Inv(vt)
+  ensures C05_inv: Inv(vt)
+
+func (vt *Model) ris()
+  requires inv: Inv(vt)
+  ensures C05_inv: Inv(vt)
+  loop 1 invariant grid: 0 <= i && i <= h && len(vt.altScreen) == h && len(vt.primaryScreen) == h
+                      && (forall r in 0..i: len(vt.altScreen[r]) == w && len(vt.primaryScreen[r]) == w)
+
+func (vt *Model) scrollUp(n int)
+  requires inv: Inv(vt)
+  requires n: n >= 0
+  ensures C05_inv: Inv(vt)
+  loop * invariant inv: Inv(vt)
+
+func (vt *Model) scrollDown(n int)
+  requires inv: Inv(vt)
+  requires n: n >= 0
+  ensures C05_inv: Inv(vt)
+  loop * invariant inv: Inv(vt)
+
+func (vt *Model) print(seq ansi.Print)
+  requires inv: Inv(vt)
+  requires w: 0 <= seq.Width && seq.Width <= 2
+  ensures C05_inv: Inv(vt)
+  loop * invariant inv: Inv(vt)
+
+-- ------------------------------------------------------------------ CSI
+
+func (vt *Model) csi(csi string, params [][]int)
+  requires inv: Inv(vt)
+  requires pm: ParamsWF(params)
+  ensures C05_inv: Inv(vt)
+
+func (vt *Model) ich(ps int)
+  requires inv: Inv(vt)
+  requires ps: ps >= 0
+  ensures C05_inv: Inv(vt)
+  loop * invariant inv: Inv(vt)
+
+func (vt *Model) cuu(ps int)
+  requires inv: Inv(vt)
+  requires ps: ps >= 0
+  ensures C05_inv: Inv(vt)
+
+func (vt *Model) cud(ps int)
+  requires inv: Inv(vt)
+  requires ps: ps >= 0
+  ensures C05_inv: Inv(vt)
+
+func (vt *Model) cuf(ps int)
+  requires inv: Inv(vt)
+  requires ps: ps >= 0
+  ensures C05_inv: Inv(vt)
+
+func (vt *Model) cub(ps int)
+  requires inv: Inv(vt)
+  requires ps: ps >= 0
+  ensures C05_inv: Inv(vt)
+
+func (vt *Model) cnl(ps int)
+  requires inv: Inv(vt)
+  requires ps: ps >= 0
+  ensures C05_inv: Inv(vt)
+  loop * invariant inv: Inv(vt)
+
+func (vt *Model) cpl(ps int)
+  requires inv: Inv(vt)
+  requires ps: ps >= 0
+  ensures C05_inv: Inv(vt)
+  loop * invariant inv: Inv(vt)
+
+func (vt *Model) cha(ps int)
+  requires inv: Inv(vt)
+  requires ps: ps >= 0
+  ensures C05_inv: Inv(vt)
+
+func (vt *Model) cup(pm [][]int)
+  requires inv: Inv(vt)
+  requires pm: ParamsWF(pm)
+  ensures C05_inv: Inv(vt)
+
+func (vt *Model) cht(ps int)
+  requires inv: Inv(vt)
+  requires ps: ps >= 0
+  ensures C05_inv: Inv(vt)
+  loop * invariant inv: Inv(vt)
+
+func (vt *Model) ed(ps int)
+  requires inv: Inv(vt)
+  requires ps: ps >= 0
+  ensures C05_inv: Inv(vt)
+  loop * invariant inv: Inv(vt)
+
+func (vt *Model) el(ps int)
+  requires inv: Inv(vt)
+  requires ps: ps >= 0
+  ensures C05_inv: Inv(vt)
+  loop * invariant inv: Inv(vt)
+
+func (vt *Model) il(ps int)
+  requires inv: Inv(vt)
+  requires ps: ps >= 0
+  ensures C05_inv: Inv(vt)
+  loop * invariant inv: Inv(vt) && ps >= 0
+
+func (vt *Model) dl(ps int)
+  requires inv: Inv(vt)
+  requires ps: ps >= 0
+  ensures C05_inv: Inv(vt)
+  loop * invariant inv: Inv(vt) && ps >= 0
+
+func (vt *Model) dch(ps int)
+  requires inv: Inv(vt)
+  requires ps: ps >= 0
+  ensures C05_inv: Inv(vt)
+  loop * invariant inv: Inv(vt)
+
+func (vt *Model) ech(ps int)
+  requires inv: Inv(vt)
+  requires ps: ps >= 0
+  ensures C05_inv: Inv(vt)
+  loop * invariant inv: Inv(vt)
+
+func (vt *Model) cbt(ps int)
+  requires inv: Inv(vt)
+  requires ps: ps >= 0
+  ensures C05_inv: Inv(vt)
+  loop * invariant inv: Inv(vt)
+
+func (vt *Model) tbc(ps int)
+  requires inv: Inv(vt)
+  ensures C05_inv: Inv(vt)
+  loop * invariant inv: Inv(vt)
+
+func (vt *Model) vpa(ps int)
+  requires inv: Inv(vt)
+  requires ps: ps >= 0
+  ensures C05_inv: Inv(vt)
+
+func (vt *Model) vpr(ps int)
+  requires inv: Inv(vt)
+  requires ps: ps >= 0
+  ensures C05_inv: Inv(vt)
+
+func (vt *Model) hpa(ps int)
+  requires inv: Inv(vt)
+  requires ps: ps >= 0
+  ensures C05_inv: Inv(vt)
+
+func (vt *Model) hpr(ps int)
+  requires inv: Inv(vt)
+  requires ps: ps >= 0
+  ensures C05_inv: Inv(vt)
+
+func (vt *Model) rep(ps int)
+  requires inv: Inv(vt)
+  requires ps: ps >= 0
+  ensures C05_inv: Inv(vt)
+  loop * invariant inv: Inv(vt)
+
+func (vt *Model) decstbm(pm [][]int)
+  requires inv: Inv(vt)
+  requires pm: ParamsWF(pm)
+  ensures C05_inv: Inv(vt)
+
+func (vt *Model) sm(params [][]int)
+  requires inv: Inv(vt)
+  requires pm: ParamsWF(params)
+  ensures C05_inv: Inv(vt)
+  loop * invariant inv: Inv(vt) && ParamsWF(params)
+
+func (vt *Model) rm(params [][]int)
+  requires inv: Inv(vt)
+  requires pm: ParamsWF(params)
+  ensures C05_inv: Inv(vt)
+  loop * invariant inv: Inv(vt) && ParamsWF(params)
+
+func (vt *Model) decset(params [][]int)
+  requires inv: Inv(vt)
+  requires pm: ParamsWF(params)
+  ensures C05_inv: Inv(vt)
+  loop * invariant inv: Inv(vt) && ParamsWF(params)
+
+func (vt *Model) decrst(params [][]int)
+  requires inv: Inv(vt)
+  requires pm: ParamsWF(params)
+  ensures C05_inv: Inv(vt)
+  loop * invariant inv: Inv(vt) && ParamsWF(params)
+
+func (vt *Model) decrqm(pd int)
+  requires inv: Inv(vt)
+  ensures C05_inv: Inv(vt)
+
+func (vt *Model) sgr(params [][]int)
+  requires inv: Inv(vt)
+  requires pm: ParamsWF(params)
+  ensures C05_inv: Inv(vt)
+  loop * invariant inv: Inv(vt) && ParamsWF(params)
+
+func (vt *Model) osc(data string)
+  requires inv: Inv(vt)
+  ensures C05_inv: Inv(vt)
+
+-- ------------------------------------------------------------------ sizes
+
+func (vt *Model) resize(w int, h int)
+  requires size: w >= 1 && h >= 1
+  ensures C05_inv: Inv(vt)
+  ensures C05_size: H(vt) == h && Wd(vt) == w
+@*/
